@@ -161,5 +161,8 @@ class Check(PropertyCheck):
         fails += self.size_sweep()
         return fails
 
+    def oracle_on_texts(self, texts):
+        return self.oracle(texts)
+
     def replay_case(self, case):
         return self.oracle([case["input"]])
